@@ -140,6 +140,8 @@ func semWords(b *strings.Builder, ws []ast.Word) {
 
 func semWord(b *strings.Builder, w ast.Word) {
 	b.WriteByte('[')
+	// adjacent literals are one literal (a line continuation splits a literal in the AST, not in the program)
+	w = mergeAdjacentLits(w)
 	for _, p := range w {
 		switch p := p.(type) {
 		case *ast.Lit:
@@ -165,6 +167,20 @@ func semWord(b *strings.Builder, w ast.Word) {
 		}
 	}
 	b.WriteByte(']')
+}
+
+func mergeAdjacentLits(w ast.Word) ast.Word {
+	var out ast.Word
+	for _, p := range w {
+		if l, ok := p.(*ast.Lit); ok && len(out) > 0 {
+			if pl, ok := out[len(out)-1].(*ast.Lit); ok {
+				out[len(out)-1] = &ast.Lit{Value: pl.Value + l.Value}
+				continue
+			}
+		}
+		out = append(out, p)
+	}
+	return out
 }
 
 func semCmd(b *strings.Builder, c *ast.Cmd) {
@@ -310,7 +326,7 @@ func printerPrograms(w *W, f func(src string, cmds []ast.Command)) {
 		n = 5
 	}
 	sigma := []string{"a", "x=1", "'q'", "$(c)", "2>", "!", "{", "}", "for", "in", "do", "done", "case", "esac", "if", "then", "else", "fi", "while",
-		";", "&", "|", "&&", ";;", "(", ")", ">", "<<E", "((1))", "\n", "#c", "x"}
+		";", "&", "|", "&&", ";;", "(", ")", ">", "<<E", "((1))", "\n", "#c", "x", "a\\\nb"}
 	one := func(ss []sym, r rendered) {
 		if lexicallyEntangled(ss) {
 			return
